@@ -13,7 +13,7 @@ nA == <<97>>  nB == <<66>>
 MC_PNames == IF NP >= 2 THEN {p1, p2} ELSE {p1}
 MC_ANames == IF NA >= 2 THEN {a1, a2} ELSE IF NA = 1 THEN {a1} ELSE {}
 MC_PRates == {FOfNat(100)}
-MC_ARates == {FOfNat(200)}
+MC_ARates == {FOfNat(200), FOfNat(300)}      \* sub-frame ratio 2 or 3, also changed (in both directions) while channels are declared
 MC_FrameKinds == {"conf"}
 MC_ColKinds == {"ok1"}
 MC_Tags == {1}
@@ -23,11 +23,12 @@ MC_UserParams == <<
   [g |-> gG1, p |-> P(nA, <<100, 101, 115, 99>>, 1, <<S(TINT, <<7, -3>>, <<>>)>>)],
   [g |-> gG1, p |-> P(nB, <<>>, 0, <<S(TCHAR, <<<<97, 98>>, <<99>>, <<>>>>, <<>>)>>)],
   [g |-> gG1, p |-> P(nB, <<>>, 0, <<S(TFLOAT, <<FOne, <<1,2,3,4>>, FMinusOne, <<0,0,192,127>>>>, <<2, 2>>)>>)],
-  [g |-> gG1, p |-> P(nA, <<>>, 0, <<S(TCHAR, <<<<120>>>>, <<>>)>>)]
+  [g |-> gG1, p |-> P(nA, <<>>, 0, <<S(TCHAR, <<<<120>>>>, <<>>)>>)],
+  [g |-> gG1, p |-> P(nB, <<>>, 0, <<S(TCHAR, <<[i \in 1..200 |-> 65 + (i % 26)], <<>>, <<104, 105>>>>, <<>>)>>)]     \* cells padded by up to 200 blanks
 >>
 MC_LockNames == {}
 MC_CallerIds == {}
 MC_Files == <<>>
-Dump == PrintT(ToJson([path |-> hist, op |-> lastOp', out |-> lastOut', sets |-> lastSets', post |-> Abs(obj'),
+Dump == ~Sampled(Len(hist)) \/ PrintT(ToJson([path |-> hist, op |-> lastOp', out |-> lastOut', sets |-> lastSets', post |-> Abs(obj'),
                        bytes |-> IF lastOp'.op = "Reload" /\ lastOut' # "range_error" THEN WriterModel(obj) ELSE <<>>]))
 =========================================================================
